@@ -1,0 +1,87 @@
+//go:build verif
+
+package tensor
+
+// C05: contracts for the flat iterator (comment-only; see /verif/DESIGN.md).
+
+// carry(i): every axis after i sits at its last index (so axis i is incremented by the odometer)
+//@ spec itCarry(tr, sh, n, i) bool = forall j :: i < j && j < n ==> tr[j] == sh[j] - 1
+// borrow(i): every axis after i sits at 0 (reverse odometer)
+//@ spec itBorrow(tr, n, i) bool = forall j :: i < j && j < n ==> tr[j] == 0
+// forward representation invariant
+//@ spec itInv(it) bool = len(it.track) == len(it.shape) && len(it.strides) == len(it.shape) && (forall i :: 0 <= i && i < len(it.shape) ==> 0 <= it.track[i] && it.track[i] < it.shape[i]) && it.nextIndex == dot(it.strides, it.track, len(it.shape))
+
+//@ func tensor.FlatIterator.ndNext
+//@   props C05
+//@   mode rank it.shape, it.strides, it.track
+//@   let n = len(it.shape)
+//@   requires [rank] n >= 1
+//@   requires [inv] itInv(it)
+//@   requires [sep] it.track.arr != it.shape.arr && it.track.arr != it.strides.arr
+//@   ensures [yield] result0 == old(it.nextIndex) && it.lastIndex == old(it.nextIndex) && result1 == nil
+//@   ensures [succ] forall i :: 0 <= i && i < n ==> it.track[i] == (old(itCarry(it.track, it.shape, n, i)) ? (old(it.track[i]) + 1 == it.shape[i] ? 0 : old(it.track[i]) + 1) : old(it.track[i]))
+//@   ensures [done] it.done == (old(it.done) || old(itCarry(it.track, it.shape, n, 0-1)))
+//@   ensures [inv] itInv(it)
+//@   ensures [frame] unchanged(it.shape) && unchanged(it.strides)
+//@   assigns it.track[0:n], it.nextIndex, it.lastIndex, it.done
+
+//@ func tensor.FlatIterator.ndPrevious
+//@   props C05
+//@   mode rank it.shape, it.strides, it.track
+//@   let n = len(it.shape)
+//@   requires [rank] n >= 1
+//@   requires [inv] itInv(it)
+//@   requires [sep] it.track.arr != it.shape.arr && it.track.arr != it.strides.arr
+//@   ensures [yield] result0 == old(it.nextIndex) && it.lastIndex == old(it.nextIndex) && result1 == nil
+//@   ensures [pred] forall i :: 0 <= i && i < n ==> it.track[i] == (old(itBorrow(it.track, n, i)) ? (old(it.track[i]) == 0 ? it.shape[i] - 1 : old(it.track[i]) - 1) : old(it.track[i]))
+//@   ensures [done] it.done == (old(it.done) || old(itBorrow(it.track, n, 0-1)))
+//@   ensures [inv] itInv(it)
+//@   assigns it.track[0:n], it.nextIndex, it.lastIndex, it.done
+
+//@ func tensor.FlatIterator.colMajorNDNext
+//@   props C05 C16
+//@   mode rank it.shape, it.strides, it.track
+//@   let n = len(it.shape)
+//@   requires [rank] n >= 1
+//@   requires [inv] itInv(it)
+//@   requires [sep] it.track.arr != it.shape.arr && it.track.arr != it.strides.arr
+//@   ensures [yield] result0 == old(it.nextIndex) && it.lastIndex == old(it.nextIndex) && result1 == nil
+//@   ensures [inv] itInv(it)
+//@   assigns it.track[0:n], it.nextIndex, it.lastIndex, it.done
+
+//@ spec nonOnes(sh, k) int decreases k = k <= 0 ? 0 : nonOnes(sh, k-1) + (sh[k-1] != 1 ? 1 : 0)
+//@ spec allOnesN(st, k) bool decreases k = k <= 0 ? true : allOnesN(st, k-1) && st[k-1] == 1
+// the flags newFlatIterator computes once from the access pattern
+//@ spec itFlags(it) bool = it.size == prodInts(it.shape, len(it.shape)) && (it.isScalar == (len(it.shape) == 0)) && (it.isVector == (nonOnes(it.shape, len(it.shape)) <= 1 && allOnesN(it.strides, len(it.strides))))
+
+//@ func tensor.FlatIterator.Reset
+//@   props C05
+//@   mode rank it.shape, it.strides, it.track
+//@   let n = len(it.shape)
+//@   requires [lens] forall i :: 0 <= i && i < n ==> it.shape[i] >= 1
+//@   requires [flags] itFlags(it)
+//@   requires [sep] it.track.arr != it.shape.arr && it.track.arr != it.strides.arr
+//@   ensures [forward] !it.reverse ==> !it.done && it.nextIndex == 0 && (forall i :: 0 <= i && i < n ==> it.track[i] == 0)
+//@   ensures [reverse] it.reverse ==> !it.done && (forall i :: 0 <= i && i < n ==> it.track[i] == it.shape[i] - 1) && it.nextIndex == dot(it.strides, it.track, n)
+//@   ensures [inv] itInv(it)
+//@   assigns it.track[0:n], it.nextIndex, it.done
+
+//@ func tensor.FlatIterator.SetForward
+//@   props C05
+//@   mode rank it.shape, it.strides, it.track
+//@   let n = len(it.shape)
+//@   requires [lens] forall i :: 0 <= i && i < n ==> it.shape[i] >= 1
+//@   requires [flags] itFlags(it)
+//@   requires [sep] it.track.arr != it.shape.arr && it.track.arr != it.strides.arr
+//@   ensures [forward] !it.reverse && !it.done && it.nextIndex == 0 && (forall i :: 0 <= i && i < n ==> it.track[i] == 0)
+//@   assigns it.track[0:n], it.nextIndex, it.done, it.reverse
+
+//@ func tensor.FlatIterator.SetReverse
+//@   props C05
+//@   mode rank it.shape, it.strides, it.track
+//@   let n = len(it.shape)
+//@   requires [lens] forall i :: 0 <= i && i < n ==> it.shape[i] >= 1
+//@   requires [flags] itFlags(it)
+//@   requires [sep] it.track.arr != it.shape.arr && it.track.arr != it.strides.arr
+//@   ensures [reverse] it.reverse && !it.done && (forall i :: 0 <= i && i < n ==> it.track[i] == it.shape[i] - 1) && it.nextIndex == dot(it.strides, it.track, n)
+//@   assigns it.track[0:n], it.nextIndex, it.done, it.reverse
